@@ -268,7 +268,8 @@ class Session:
         RE = getattr(self, "RE", None)
         st = str(RE.state) if RE is not None else "?"
         last = self.msgs[-1].command if self.msgs else None
-        self.timeline.append(("inject", label, (pos[0] - getattr(self, "base", 0), pos[1]), st, last))
+        phase = run_phase(RE) if RE is not None else "?"
+        self.timeline.append(("inject", label, (pos[0] - getattr(self, "base", 0), pos[1]), st, last, phase))
 
     # hooks
     def _msg_hook(self, msg):
@@ -278,7 +279,8 @@ class Session:
 
     def _state_hook(self, new, old):
         self.states.append((str(new), str(old)))
-        self.timeline.append(("state", str(new), str(old)))
+        # 4th element: where _run is at this moment (only meaningful for request-driven changes)
+        self.timeline.append(("state", str(new), str(old), run_phase(self.RE) if new in _REQ_STATES else ""))
 
     def _doc_cb(self, name, doc):
         self.docs.append((name, doc))
@@ -391,6 +393,47 @@ class Session:
         h.update(repr(obs.loop_errors).encode())
         h.update(obs.outcome.encode())
         return h.hexdigest()[:16]
+
+
+_RUN_LINES = None
+_REQ_STATES = ("pausing", "suspending", "aborting", "stopping", "halting")
+
+
+def _run_lines():
+    """(first line of the 'except StopIteration' ladder, first line of the outer finally) of RunEngine._run."""
+    global _RUN_LINES
+    if _RUN_LINES is None:
+        import inspect
+
+        from bluesky.run_engine import RunEngine
+
+        src, first = inspect.getsourcelines(RunEngine._run)
+        exc = fin = None
+        for i, line in enumerate(src):
+            if exc is None and line.startswith("        except StopIteration"):
+                exc = first + i
+            if line.startswith("        finally:"):
+                fin = first + i
+        _RUN_LINES = (exc or 10**9, fin or 10**9)
+    return _RUN_LINES
+
+
+def run_phase(RE):
+    """Where RunEngine._run is: 'loop' (message loop), 'ending' (plan over, final sleep), 'cleanup' (its finally)."""
+    t = getattr(RE, "_task", None)
+    if t is None:
+        return "notask"
+    if t.done():
+        return "done"
+    fr = t.get_coro().cr_frame
+    if fr is None:
+        return "done"
+    exc, fin = _run_lines()
+    if fr.f_lineno >= fin:
+        return "cleanup"
+    if fr.f_lineno >= exc:
+        return "ending"
+    return "loop"
 
 
 def _plain(x):
